@@ -1,5 +1,6 @@
 """C17 - adapter signatures are verifiable encryptions of a valid signature."""
 import random, sys
+from ..par import SafePool
 from ..common import Report, REPO
 from .. import scncheck
 from ..gen.progs import push, op, b1
@@ -275,7 +276,7 @@ def main(tier: str, seed: int) -> int:
     scncheck.mc(rep, 'Adapter', 'mc', INV, run_mc, known=known, workers=4)
     import multiprocessing as mp
     n = 6000 if quick else 40000
-    with mp.get_context('fork').Pool(14) as pool:
+    with SafePool(14) as pool:
         cases = [c for ch in pool.map(record_random, [(seed * 41 + i, n // 28, 0) for i in range(28)]) for c in ch]
         sweeps = [c for ch in pool.map(flip_sweep, [(seed * 43 + i, 2 if quick else 12) for i in range(28)]) for c in ch]
     for c in cases + sweeps:
